@@ -453,6 +453,31 @@ def rule_order():
             "; ".join(f"({coq_str(k)}, {'true' if d else 'false'})" for k, d in keys) + "].\n")
 
 
+# ---------------------------------------------------------------- LazyRegex and the shared capture regex (C02 clone clause, C12)
+def lazy_regex_shape():
+    """src/regex.rs and MarkerString::compile / capture (src/marker/mod.rs) keep the shape RIO.LazyRegex transcribes:
+    create_regex builds from self.regex with self.ignore_case; compile() copies every field and caches create_regex();
+    regex() hands out the cache or a fresh regex; MarkerString::compile compiles regex_capture in place and capture()
+    reads it through regex()."""
+    src = read("src/regex.rs")
+    pats = [
+        r"pub fn create_regex\(&self\) -> Option<Arc<Regex>> \{\n\s*match RegexBuilder::new\(self\.regex\.as_str\(\)\)\.case_insensitive\(self\.ignore_case\)\.build\(\) \{\n\s*Ok\(regex\) => Some\(Arc::new\(regex\)\),",
+        r"pub fn compile\(&self\) -> Self \{\n\s*let compiled = self\.create_regex\(\);\n\n\s*LazyRegex \{\n\s*regex: self\.regex\.clone\(\),\n\s*original: self\.original\.clone\(\),\n\s*compiled,\n\s*ignore_case: self\.ignore_case,\n\s*\}\n\s*\}",
+        r"pub fn regex\(&self\) -> Option<Arc<Regex>> \{\n\s*match &self\.compiled \{\n\s*Some\(regex\) => Some\(regex\.clone\(\)\),\n\s*None => self\.create_regex\(\),\n\s*\}\n\s*\}",
+        r"pub fn is_match\(&self, value: &str\) -> bool \{\n\s*match &self\.compiled \{\n\s*Some\(regex\) => regex\.is_match\(value\),\n\s*None => \{\n\s*if self\.original\.is_empty\(\) \{\n\s*true\n\s*\} else \{\n\s*match self\.create_regex\(\) \{\n\s*None => false,\n\s*Some\(regex\) => regex\.is_match\(value\),",
+        r"pub fn new_leaf\(regex: &str, ignore_case: bool\) -> LazyRegex \{\n\s*LazyRegex \{\n\s*regex: \[\"\^\", regex, \"\$\"\]\.join\(\"\"\),\n\s*original: regex\.to_string\(\),\n\s*compiled: None,\n\s*ignore_case,",
+    ]
+    for pat in pats:
+        if not re.search(pat, src):
+            raise TranslatorError("src/regex.rs no longer has the shape RIO.LazyRegex transcribes: " + pat[:60])
+    m = read("src/marker/mod.rs")
+    for pat in (r"pub fn compile\(&self\) -> bool \{\n\s*match self\.regex_capture\.write\(\) \{\n\s*Ok\(mut regex\) => \{\n\s*\*regex = regex\.compile\(\);",
+                r"let regex = match self\.regex_capture\.read\(\) \{\n\s*Ok\(regex\) => match regex\.regex\(\) \{"):
+        if not re.search(pat, m):
+            raise TranslatorError("src/marker/mod.rs: MarkerString::compile / capture no longer go through the shared regex_capture cell as RIO.LazyRegex assumes")
+    return "Definition ext_lazy_regex_shape_checked : bool := true.\n"
+
+
 SECTIONS = [
     ("Headers", ["RIO.Headers"], header_action_table),
     ("Encodings", [], supported_encodings),
@@ -461,6 +486,7 @@ SECTIONS = [
     ("Tables", [], tables_section),
     ("Analysis", [], analysis_block),
     ("RuleOrder", [], rule_order),
+    ("LazyRegex", [], lazy_regex_shape),
 ]
 
 
